@@ -152,7 +152,7 @@ fn theta_axes(thorough: bool) -> [Vec<f64>; 6] {
 
 pub fn run(ctx: &Ctx) -> Report {
     let thorough = !ctx.quick();
-    let mut robots: Vec<Parameters> = if thorough { robot_axis(1, &[5, 6]).into_iter().step_by(5).collect() } else { robot_axis(0, &[5, 6]) };
+    let mut robots: Vec<Parameters> = if thorough { robot_axis(1, &[5, 6]).into_iter().step_by(11).collect() } else { robot_axis(0, &[5, 6]) };
     // a 5-DOF robot as the YAML loader produces it: J6 sign 0
     let mut blocked = robots[1];
     blocked.dof = 5;
